@@ -265,6 +265,11 @@ func (x *Exec) havocAlloc(st *State) {
 	na := Sym(fresh("alloc"), SArrB)
 	r := Sym(fresh("r"), SInt)
 	st.assume(Forall([]*Term{r}, Implies(Select(old, r), Select(na, r)), Select(old, r)))
+	if st.old != nil && st.old.alloc != old {
+		// also relative to the entry allocation map (so that "fresh" w.r.t. a later state implies fresh w.r.t. entry)
+		r0 := Sym(fresh("r"), SInt)
+		st.assume(Forall([]*Term{r0}, Implies(Select(st.old.alloc, r0), Select(na, r0)), Select(st.old.alloc, r0)))
+	}
 	st.assume(Select(na, Int(0)))
 	st.heap.alloc = na
 }
@@ -451,6 +456,14 @@ func (p *Program) lookupDyn(fr *Frame, key string) *FuncContract {
 func (x *Exec) callStatic(st *State, fr *Frame, instr ssa.Instruction, fn *ssa.Function, args []Value, pos token.Pos) bool {
 	fc := x.p.contractFor(fn)
 	pkg, key := funcKey(fn)
+	// caller-specific contract of an external: "<caller>-><extern>" (e.g. what a particular sync.Pool returns)
+	if !x.p.verified[pkg] {
+		_, ckey := funcKey(fr.fn)
+		if o := x.p.lookupDyn(fr, ckey+"->"+externKey(pkg, key)); o != nil {
+			fc = o
+			x.p.trusted[ckey+"->"+externKey(pkg, key)] = true
+		}
+	}
 	inRepo := x.p.verified[pkg]
 	bind := func(v Value) {
 		if iv, ok := instr.(ssa.Value); ok && v != nil {
@@ -591,6 +604,21 @@ func (x *Exec) applyContract(st *State, fr *Frame, fc *FuncContract, key string,
 		}
 		res = t
 	}
+	if fc.ResultType != "" {
+		if iv, ok := res.(If); ok {
+			if t := x.p.lookupType(fc.ResultType); t != nil {
+				iv.Dyn = t
+				if pt, isP := t.Underlying().(*types.Pointer); isP {
+					iv.DynVal = Ptr{R: iv.Pl, I: Int(0), Root: pt.Elem(), Elem: pt.Elem()}
+				}
+				st.assume(Eq(iv.Tag, Int(x.p.typeID(t))))
+				res = iv
+				vars["result"] = res
+			} else {
+				x.fail("resulttype %s: unknown type", fc.ResultType)
+			}
+		}
+	}
 	// mem(x) also covers the region x occupies after the call (reallocation)
 	cPost := &evalCtx{x: x, st: st, heap: st.heap, old: pre, ghost: st.ghost, oldGhost: preGhost, vars: vars, facts: true, pkg: c.pkg}
 	for _, cl := range fc.Assigns {
@@ -621,21 +649,6 @@ func (x *Exec) applyContract(st *State, fr *Frame, fc *FuncContract, key string,
 	}
 	if len(fc.Ensures) > 0 {
 		x.addSmoke("call-"+shortKey(key)+"@"+site, before, st)
-	}
-	if fc.ResultType != "" {
-		if iv, ok := res.(If); ok {
-			if t := x.p.lookupType(fc.ResultType); t != nil {
-				iv.Dyn = t
-				if pt, isP := t.Underlying().(*types.Pointer); isP {
-					iv.DynVal = Ptr{R: iv.Pl, I: Int(0), Root: pt.Elem(), Elem: pt.Elem()}
-				}
-				st.assume(Eq(iv.Tag, Int(x.p.typeID(t))))
-				res = iv
-				vars["result"] = res
-			} else {
-				x.fail("resulttype %s: unknown type", fc.ResultType)
-			}
-		}
 	}
 	if fc.ViewResult {
 		if sl, ok := res.(Sl); ok {
@@ -763,7 +776,7 @@ func (x *Exec) frameDutyRegion(st *State, root types.Type, r *Term, pos token.Po
 	if x.fc == nil || !x.fc.HasAssigns || isFreshSym(r) {
 		return
 	}
-	goal := Not(Select(st.old.alloc, r))
+	goal := Or(Not(Select(st.old.alloc, r)), Eq(r, Int(0))) // region 0 (nil) owns no memory
 	for _, l := range x.entryLocs(st) {
 		if l.all || (l.mem && canon(l.root) == canon(root)) {
 			goal = Or(goal, l.covers(root, r, Int(0), ""))
@@ -1264,7 +1277,7 @@ func (x *Exec) frameDutyRange(st *State, l loc, pos token.Pos, what string) {
 		for _, cl := range locs {
 			cov = Or(cov, cl.covers(l.root, l.r, p, ""))
 		}
-		return Or(Not(Select(alloc, l.r)), Le(l.hi, l.lo), Forall([]*Term{p}, Implies(And(Le(l.lo, p), Lt(p, l.hi)), cov)))
+		return Or(Not(Select(alloc, l.r)), Eq(l.r, Int(0)), Le(l.hi, l.lo), Forall([]*Term{p}, Implies(And(Le(l.lo, p), Lt(p, l.hi)), cov)))
 	}
 	for fr2 := st.top; fr2 != nil; fr2 = fr2.parent {
 		for h, snap := range fr2.loops {
